@@ -542,12 +542,12 @@ def check_pt(case, out):
 
 
 FACETS = [
-    Facet("exact-big", lambda tier: big_structure(), check_exact, quick=320, thorough=5000,
+    Facet("exact-big", lambda tier: big_structure(), check_exact, quick=700, thorough=5000,
           rule="large rationals: exact result and no float", case_timeout=120),
-    Facet("exact-small", lambda tier: small_structure(), check_exact, quick=200, thorough=3000,
+    Facet("exact-small", lambda tier: small_structure(), check_exact, quick=500, thorough=3000,
           rule="small rationals: exact result and no float"),
-    Facet("differential", lambda tier: small_structure(), check_differential, quick=300, thorough=5000,
+    Facet("differential", lambda tier: small_structure(), check_differential, quick=600, thorough=5000,
           rule="float / numpy.float64 agree with the exact result to 1e-9*scale"),
-    Facet("minimal-point-type", lambda tier: pt_cases(), check_pt, quick=200, thorough=3000,
+    Facet("minimal-point-type", lambda tier: pt_cases(), check_pt, quick=400, thorough=3000,
           rule="control points with only point+point and scalar*point"),
 ]
